@@ -314,7 +314,14 @@ def main(pid, tier):
         "wall_s": round(wall, 2), "violations": len(violations),
     }
     if hasattr(mod, "source_shas"):
-        ev["coverage"]["source_sha1"] = mod.source_shas()
+        ev["coverage"]["function_sha1"] = mod.source_shas()
+    try:   # the encoding is regenerated from these files on every run
+        import glob
+        ev["coverage"]["source_sha1"] = {os.path.basename(f): hashlib.sha1(open(f, "rb").read()).hexdigest()[:12]
+                                         for f in sorted(glob.glob(os.path.join(REPO, "src", "pyrtcm", "*.py")))}
+        ev["coverage"]["repo"] = REPO
+    except OSError:
+        pass
     evdir = os.environ.get("PVX_EVIDENCE_DIR") or os.path.join(VERIF, "evidence")
     os.makedirs(evdir, exist_ok=True)
     with open(os.path.join(evdir, f"{pid}.json"), "w") as f:
